@@ -244,6 +244,7 @@ type rconn struct {
 	s       *memStream
 	sess    *shimSession
 	cur     io.Reader
+	prev    io.Reader
 	last    []rmsg
 	lastErr string
 }
@@ -265,6 +266,9 @@ func (r *rconn) next() (out string) {
 			out = "panic"
 		}
 	}()
+	if r.cur != nil {
+		r.prev = r.cur // the application may still hold the reader of the previous message
+	}
 	mt, rd, err := r.c.NextReader()
 	if err != nil {
 		r.cur = nil
@@ -288,6 +292,16 @@ func (r *rconn) readN(n int) string {
 		got += k
 	}
 	return "data " + hx(buf[:got]) + " " + errClass(err)
+}
+
+// readPrev reads from the reader of the previous message, which NextReader has retired: it must deliver nothing.
+func (r *rconn) readPrev(n int) string {
+	if r.prev == nil {
+		return "noreader"
+	}
+	buf := make([]byte, n)
+	k, err := r.prev.Read(buf)
+	return "data " + hx(buf[:k]) + " " + errClass(err)
 }
 
 func (r *rconn) readAll() string {
@@ -467,6 +481,8 @@ func (it *wtInterp) Exec(line string) string {
 		return it.r.readN(atoi(t[2]))
 	case "readall":
 		return it.r.readAll()
+	case "readprev":
+		return it.r.readPrev(atoi(t[2]))
 	case "msgs":
 		got, errc := it.r.readMsgs(len(it.r.s.in) + 3)
 		it.r.last, it.r.lastErr = got, errc
@@ -848,6 +864,40 @@ func famWTRead(t *testing.T, r *Rec) {
 			r.Violate("C15", "C15/transient-not-reported", "a stream error inside a payload was not reported: "+first, replay)
 		}
 		it.r.done()
+	}
+	// a reader that NextReader has retired delivers nothing, whatever follows on the stream (partial read of
+	// message k, NextReader, then a Read on the old reader; then the new message is still intact)
+	for _, firstLen := range []int{5, 0, 130} {
+		for _, partial := range []int{0, 2} {
+			it := &wtInterp{}
+			var replay []string
+			do := func(op string) string {
+				out := it.Exec(op)
+				r.Op(op, out)
+				replay = append(replay, op)
+				return out
+			}
+			m1, m2 := payload(r.rng, firstLen), payload(r.rng, 14)
+			stream := append(specEncode("t", m1, formMin), specEncode("b", m2, formMin)...)
+			stream = append(stream, specEncode("t", []byte("end"), formMin)...)
+			do(fmt.Sprintf("wt rnew 0 e 0 %s - 0", hx(stream)))
+			r.Cover(fmt.Sprintf("stale-reader/first=%d/partial=%d", firstLen, partial))
+			do("wt next")
+			if partial > 0 && firstLen >= partial {
+				do(fmt.Sprintf("wt read %d", partial))
+			}
+			do("wt next")
+			if o := do("wt readprev 64"); o != "data - eof" {
+				r.Violate("C15", "C15/retired-reader-delivers", "the reader of a message, read after NextReader had moved on, delivered "+o+" (want nothing and EOF)", replay)
+			}
+			if o := do("wt readall"); o != "data "+hx(m2)+" eof" && o != "data "+hx(m2)+" -" {
+				r.Violate("C15", "C15/message-after-retired-reader", "the message after a retired reader was read as "+o, replay)
+			}
+			do("wt next")
+			do("wt readprev 64")
+			do("wt readall")
+			it.r.done()
+		}
 	}
 	// the documented guard: the 1000th failing NextReader panics, none before
 	{
